@@ -54,8 +54,8 @@ func (c *Ctx) runSamplerPair(rule string, pkgs []*packages.Package) {
 					return true
 				}
 				fn, ok := typeutil.Callee(info, call).(*types.Func)
-				if !ok || fn.Pkg() == nil || !(strings.HasPrefix(fn.Pkg().Path(), repoMod) || strings.Contains(fn.Pkg().Path(), "fixtures/")) {
-					return true
+				if !ok || fn.Pkg() == nil || fn.Pkg() != p.Types {
+					return true // only helpers of this package: the vector vocabulary is used differently by design
 				}
 				var parts []string
 				if sel, ok := call.Fun.(*ast.SelectorExpr); ok {
